@@ -204,7 +204,7 @@ class C08Monitor(histrun.Monitor):
             if any(mo["status"] != 200 for nm, mo in o["members"].items() if nm in o.get("listed", {})):
                 continue
             fp = common.h(sorted((nm, mo["sha"]) for nm, mo in o["members"].items() if mo["status"] == 200))
-            meta = common.h(col.kind, sorted(col.props.items()), col.inc)
+            meta = common.h(col.kind, sorted(col.props.items()), col.inc, bool(getattr(col, "patched", False)))
             tags = {k: o["tags"].get(k) for k in self.TAGS}
             res.count("tag_observations")
             for k, t in tags.items():
